@@ -1332,7 +1332,9 @@ impl Fsm {
 
     /// Implements variant "initializeDataModel(datamodel, doc)" from W3C.
     fn initialize_data_models_recursive(&mut self, datamodel: &mut dyn Datamodel, state_id: StateId, set_data: bool) {
-        datamodel.initializeDataModel(self, state_id, set_data);
+        // The <scxml> element is never part of an entry set: with late binding its <data> would
+        // never get their values, so they are bound at start like with early binding.
+        datamodel.initializeDataModel(self, state_id, set_data || state_id == self.pseudo_root);
 
         for child_state in self.getChildStates(state_id).iterator() {
             self.initialize_data_models_recursive(datamodel, *child_state, set_data);
